@@ -5,6 +5,7 @@ mod corpus;
 mod gen;
 mod html;
 mod parse;
+mod script;
 mod sub;
 mod util;
 
@@ -48,11 +49,15 @@ fn main() {
         }
         i += 2;
     }
-    std::fs::create_dir_all(&args.out).unwrap();
+    if args.suite != "runscript" {
+        std::fs::create_dir_all(&args.out).unwrap();
+    }
     match args.suite.as_str() {
         "parse" => parse::run(&args),
         "html" => html::run(&args),
         "sub" => sub::run(&args),
+        "script" => script::run(&args),
+        "runscript" => script::child(&a[2]),
         s => {
             eprintln!("unknown suite {s}");
             std::process::exit(2);
